@@ -62,15 +62,15 @@ is not an index, shifts and masks with Rust's widths, the array fill loop). For 
 and every frame it returns is well-formed. -/
 theorem C04_src_fromUsart_total (enc : List UInt8) :
     Src.fromUsart enc ≠ .panic ∧ ∀ f, Src.fromUsart enc = .ok f → f.WF := by
-  rw [Ross.src_fromUsart_eq]
-  exact ⟨Ross.fromUsart_no_panic enc, fun f h => Ross.fromUsart_wf enc f h⟩
+  have ha := Ross.src_fromUsart_agrees enc
+  exact ⟨fun hp => Ross.fromUsart_no_panic enc (ha.2.1 hp), fun f h => Ross.fromUsart_wf enc f ((ha.1 f).1 h)⟩
 
 /-- **C04 about the CAN frame decoder as it reads now.** `Src.fromCan` is `Frame::from_bxcan_frame` translated statement by
 statement from `src/frame.rs` on every run over the model's view of a `bxcan::Frame`. On every frame constructible through
 the driver API it does not panic, and every frame it returns is well-formed. -/
 theorem C04_src_fromCan_total (c : CanFrame) (hc : c.Constructible) :
     Src.fromCan c ≠ .panic ∧ ∀ f, Src.fromCan c = .ok f → f.WF := by
-  rw [Ross.src_fromCan_eq]
-  exact ⟨Ross.fromCan_no_panic c hc, fun f h => Ross.fromCan_wf c hc f h⟩
+  have ha := Ross.src_fromCan_agrees c
+  exact ⟨fun hp => Ross.fromCan_no_panic c hc (ha.2.1 hp), fun f h => Ross.fromCan_wf c hc f ((ha.1 f).1 h)⟩
 
 end Ross.Props
